@@ -283,10 +283,8 @@ def eval1 (c : String) : Option Out :=
     let L ← layoutOf name
     let (ss, us) ← parseArgs kvs
     let e := envOf ss us
-    let canon := "site " ++ name ++ " " ++ " ".intercalate (L.map (fun f => match f with
-      | .lit _ => ""
-      | .str a => a ++ "=" ++ hex (e.str a)
-      | .u64 a => a ++ "=#" ++ toString (e.u64 a).toNat))
+    -- semantic identity of the input: the function and ALL its arguments as given (not the layout)
+    let canon := "site " ++ name ++ " " ++ " ".intercalate kvs
     pure { expected := hex (encLayout T e L), canon := canon, cls := "site-" ++ name }
   | ["inv", seed, store, model, ctx, tuples] => do
     let seed ← parseU64 seed; let s ← unhex store; let m ← unhex model
